@@ -267,10 +267,56 @@ static int sweep_declarations()
     return dev ? 1 : 0;
 }
 
+// ---- consistency (C13): a parser in which two options share a letter refuses to parse - whenever and however they were declared
+static int sweep_consistency()
+{
+    long n = 0; int dev = 0;
+    const char* names[] = { "a", "b", "c" }; const char* letters[] = { "", "x", "y" };
+    const int OPS = 2 * 3 * 3 + 1;          // declare (parser|group g1) x name x letter, or parse
+    for (int len = 1; len <= 4; ++len)
+    {
+        long total = 1; for (int i = 0; i < len; ++i) total *= OPS;
+        for (long code = 0; code < total; ++code)
+        {
+            parser p; auto& g1 = p.group("g1");
+            std::map<S, std::pair<int, S>> ref; long c = code; bool ok = true; S trace;
+            for (int i = 0; i < len && ok; ++i, c /= OPS)
+            {
+                int op = (int)(c % OPS);
+                if (op == OPS - 1)
+                {
+                    std::map<S, int> cnt; bool dup = false; for (auto& r : ref) if (!r.second.second.empty() && ++cnt[r.second.second] > 1) dup = true;
+                    const char* av[] = { "prog" }; int exc = 0;
+                    try { p.parse(1, av); } catch (parser_error&) { exc = 2; } catch (std::exception&) { exc = 3; }
+                    trace += " parse()"; if (exc != (dup ? 2 : 0)) ok = false;
+                    continue;
+                }
+                int via = op / 9; S name = names[(op / 3) % 3], letter = letters[op % 3];
+                trace += S(via ? " g1." : " parser.") + "toggle(" + name + ")" + (letter.empty() ? S() : ".short_name(" + letter + ")");
+                int exc = 0; auto it = ref.find(name);
+                int want = 0;
+                if (it != ref.end() && it->second.first != via) want = 2;
+                else if (!letter.empty() && it != ref.end() && !it->second.second.empty() && it->second.second != letter) want = 2;
+                try { auto& t = via ? g1.toggle(name) : p.toggle(name); if (it == ref.end()) ref[name] = { via, "" }; if (!letter.empty()) { t.short_name(letter); ref[name].second = letter; } }
+                catch (parser_error&) { exc = 2; } catch (std::exception&) { exc = 3; }
+                if (exc != want) ok = false;
+            }
+            ++n;
+            if (!ok && ++dev <= 5) std::printf("DEVIATION consistency:%s\n", trace.c_str());
+        }
+    }
+    std::printf("consistency: %ld sequences, %d deviations\n", n, dev);
+    return dev ? 1 : 0;
+}
+
 int main(int argc, char** argv)
 {
     if (argc > 1 && !std::strcmp(argv[1], "format_padded")) return sweep_format_padded();
+    if (argc > 1 && (!std::strncmp(argv[1], "parser_check", 12) || !std::strncmp(argv[1], "crtp_short", 10))) return sweep_consistency();
+
     if (argc > 1 && (!std::strncmp(argv[1], "group_", 6) || !std::strncmp(argv[1], "parser_has", 10) || !std::strncmp(argv[1], "parser_get_all", 14))) return sweep_declarations();
+    int pre = 0;
+    if (argc > 1 && !std::strcmp(argv[1], "thorough")) { pre = sweep_format_padded() | sweep_consistency() | sweep_declarations(); }
     const char* E1 = "NITRO_REPLAY_E1"; const char* E2 = "NITRO_REPLAY_E2"; const char* E3 = "NITRO_REPLAY_E3";
     std::vector<Decl> decls = {
         { { { "verbose", "v", false, "", 0 }, { "all", "a", true, "", 0 } }, { { "out", "o", "", false, "", true } }, { { "inc", "i", "", false, {}, true } }, 2, false },
@@ -315,5 +361,5 @@ int main(int argc, char** argv)
     }
     unsetenv(E1); unsetenv(E2); unsetenv(E3);
     std::printf("%ld cases compared, %d deviations, %ld vectors inside the known finding malformed_dash_in_positional_part skipped\n", cases, deviations, skipped_kf);
-    return deviations ? 1 : 0;
+    return (deviations || pre) ? 1 : 0;
 }
